@@ -110,6 +110,10 @@ impl Powers {
             }
             btree_map::Entry::Occupied(mut e) => {
                 *e.get_mut() += power;
+
+                if *e.get() == 0 {
+                    e.remove_entry();
+                }
             }
         }
     }
